@@ -107,6 +107,8 @@ where
                             // Step 1: Do work.
                             if pending.is_empty() {
                                 pending = {
+                                    #[cfg(getong_stateright_verif)]
+                                    crate::verif::yield_point(11);
                                     let jobs = job_broker.pop();
                                     if jobs.is_empty() {
                                         log::debug!(
@@ -131,6 +133,8 @@ where
                                 target_max_depth,
                                 &max_depth,
                             );
+                            #[cfg(getong_stateright_verif)]
+                            crate::verif::yield_point(12);
                             if job_broker.is_shut_down() {
                                 // Timed out, or another worker stopped: observed once per
                                 // block even if this worker never shares or requests work.
@@ -161,6 +165,8 @@ where
 
                             // Step 2: Share work.
                             if pending.len() > 1 && thread_count > 1 {
+                                #[cfg(getong_stateright_verif)]
+                                crate::verif::yield_point(13);
                                 job_broker.split_and_push(&mut pending);
                             }
                         }
@@ -298,6 +304,8 @@ where
                     continue;
                 }
                 state_count.fetch_add(1, Ordering::Relaxed);
+                #[cfg(getong_stateright_verif)]
+                crate::verif::yield_point(14);
 
                 // Skip if already generated.
                 //
